@@ -30,13 +30,14 @@ import (
 )
 
 type Target struct {
-	Coq    string   `json:"coq"`    // Coq identifier to emit
-	File   string   `json:"file"`   // path relative to repo
-	Kind   string   `json:"kind"`   // const | bytes | func | assign | string
-	Name   string   `json:"name"`   // Go const/var/func name
-	Var    string   `json:"var"`    // for kind=assign: assigned variable inside func Name
-	Params []string `json:"params"` // for kind=assign: free identifiers that become parameters
-	Recv   string   `json:"recv"`   // optional receiver type for methods
+	Coq      string            `json:"coq"`      // Coq identifier to emit
+	File     string            `json:"file"`     // path relative to repo
+	Kind     string            `json:"kind"`     // const | bytes | func | assign | string
+	Name     string            `json:"name"`     // Go const/var/func name
+	Var      string            `json:"var"`      // for kind=assign: assigned variable inside func Name
+	Params   []string          `json:"params"`   // for kind=assign: free identifiers that become parameters
+	Recv     string            `json:"recv"`     // optional receiver type for methods
+	Abstract map[string]string `json:"abstract"` // kfunc / sfunc: Go expression text -> name of an opaque parameter
 }
 
 type Config struct {
@@ -48,9 +49,13 @@ var fset = token.NewFileSet()
 var files = map[string]*ast.File{}
 var repo string
 
+// cannotExpress is raised by die and recovered per target in main: a target outside the fragment is NOT emitted (every Coq
+// file that uses its name then fails to compile - a broken proof obligation for exactly the properties that depend on it) and
+// the reason is written to the warnings file; the other targets are unaffected.
+type cannotExpress struct{ msg string }
+
 func die(format string, a ...any) {
-	fmt.Fprintf(os.Stderr, "translator cannot express: "+format+"\n", a...)
-	os.Exit(2)
+	panic(cannotExpress{fmt.Sprintf("translator cannot express: "+format, a...)})
 }
 
 func load(rel string) *ast.File {
@@ -613,7 +618,9 @@ func stripPos(fd *ast.FuncDecl) *ast.FuncDecl {
 }
 
 func main() {
-	var cfgPath, out, fpOut string
+	var cfgPath, out, out2, fpOut, warnOut string
+	flag.StringVar(&warnOut, "warn", "", "file receiving one line per target the translator cannot express")
+	flag.StringVar(&out2, "out2", "", "second output .v (bytes-valued functions; needs V.Bytes and V.Keys)")
 	flag.StringVar(&repo, "repo", "/repo", "repository root")
 	flag.StringVar(&cfgPath, "targets", "targets.json", "targets file")
 	flag.StringVar(&out, "out", "Extracted.v", "output .v")
@@ -633,65 +640,114 @@ func main() {
 	b.WriteString("(* GENERATED by /verif/tools/gen from the working tree of the repository. DO NOT EDIT. *)\n")
 	b.WriteString("From Coq Require Import NArith List Bool.\nFrom V Require Import U64.\nImport ListNotations.\nLocal Open Scope N_scope.\n\n")
 	calls := map[string]bool{}
+	var b2 strings.Builder
+	b2.WriteString("(* GENERATED by /verif/tools/gen from the working tree of the repository. DO NOT EDIT. *)\n")
+	b2.WriteString("From Coq Require Import NArith List Bool.\nFrom V Require Import Bytes Extracted Keys.\nImport ListNotations.\nLocal Open Scope N_scope.\n\n")
+	kcalls, bytesOK, scalls := map[string]bool{}, map[string]bool{}, map[string]*sfuncSig{}
+	var warnings []string
 	for _, t := range cfg.Targets {
-		f := load(t.File)
-		switch t.Kind {
-		case "const":
-			e := findValue(f, t.Name)
-			if e == nil {
-				die("constant %s not found in %s", t.Name, t.File)
+		func() {
+			defer func() {
+				if r := recover(); r != nil {
+					ce, ok := r.(cannotExpress)
+					if !ok {
+						panic(r)
+					}
+					w := fmt.Sprintf("%s (%s:%s): %s", t.Coq, t.File, t.Name, ce.msg)
+					warnings = append(warnings, w)
+					fmt.Fprintln(os.Stderr, w)
+				}
+			}()
+			f := load(t.File)
+			switch t.Kind {
+			case "const":
+				e := findValue(f, t.Name)
+				if e == nil {
+					die("constant %s not found in %s", t.Name, t.File)
+				}
+				fmt.Fprintf(&b, "Definition %s : N := %s. (* %s:%s *)\n", t.Coq, constEval(f, e).String(), t.File, t.Name)
+			case "bytes":
+				e := findValue(f, t.Name)
+				if e == nil {
+					die("byte literal %s not found in %s", t.Name, t.File)
+				}
+				bs := bytesEval(f, e)
+				ss := make([]string, len(bs))
+				for i, x := range bs {
+					ss[i] = strconv.Itoa(int(x))
+				}
+				fmt.Fprintf(&b, "Definition %s : list N := [%s]. (* %s:%s *)\n", t.Coq, strings.Join(ss, "; "), t.File, t.Name)
+				if t.Coq == t.Name {
+					bytesOK[t.Name] = true
+				}
+			case "kfunc":
+				fd := findFunc(f, t.Name, t.Recv)
+				if fd == nil {
+					die("func %s not found in %s", t.Name, t.File)
+				}
+				checkFormatUint64(f)
+				fmt.Fprintf(&b2, "(* %s:%s *)\n%s", t.File, t.Name, translateKFunc(f, fd, t, kcalls, bytesOK))
+				if t.Coq != t.Name {
+					die("kfunc %s: the Coq name must be the Go name", t.Name)
+				}
+				kcalls[t.Name] = true
+			case "sfunc":
+				fd := findFunc(f, t.Name, t.Recv)
+				if fd == nil {
+					die("func %s not found in %s", t.Name, t.File)
+				}
+				src, sig := translateSFunc(f, fd, t, scalls)
+				fmt.Fprintf(&b, "(* %s:%s.%s *)\n%s", t.File, t.Recv, t.Name, src)
+				scalls[t.Name] = sig
+			case "joinarg":
+				e := findValue(f, t.Name)
+				if e == nil {
+					die("value %s not found in %s", t.Name, t.File)
+				}
+				call, ok := e.(*ast.CallExpr)
+				if !ok || !strings.HasSuffix(exprStr(call.Fun), "JoinLenPrefix") || len(call.Args) != 1 {
+					die("%s is not a single-argument JoinLenPrefix call", t.Name)
+				}
+				bs := bytesEval(f, call.Args[0])
+				ss := make([]string, len(bs))
+				for i, x := range bs {
+					ss[i] = strconv.Itoa(int(x))
+				}
+				fmt.Fprintf(&b, "Definition %s : list N := [%s]. (* %s:%s = JoinLenPrefix(this) *)\n", t.Coq, strings.Join(ss, "; "), t.File, t.Name)
+			case "func":
+				fd := findFunc(f, t.Name, t.Recv)
+				if fd == nil {
+					die("func %s not found in %s", t.Name, t.File)
+				}
+				fmt.Fprintf(&b, "(* %s:%s *)\n%s", t.File, t.Name, translateFunc(f, fd, t.Coq, calls))
+				calls[t.Name] = true
+				if t.Coq != t.Name {
+					// calls from later Go code use the Go name; emit an alias under the Go name as well
+					fmt.Fprintf(&b, "Notation %s := %s (only parsing).\n", coqIdent(t.Name), t.Coq)
+				}
+			case "assign":
+				fd := findFunc(f, t.Name, t.Recv)
+				if fd == nil {
+					die("func %s not found in %s", t.Name, t.File)
+				}
+				fmt.Fprintf(&b, "(* %s:%s, right-hand side assigned to %s *)\n%s", t.File, t.Name, t.Var, translateAssign(f, fd, t, calls))
+			default:
+				die("target kind %s", t.Kind)
 			}
-			fmt.Fprintf(&b, "Definition %s : N := %s. (* %s:%s *)\n", t.Coq, constEval(f, e).String(), t.File, t.Name)
-		case "bytes":
-			e := findValue(f, t.Name)
-			if e == nil {
-				die("byte literal %s not found in %s", t.Name, t.File)
-			}
-			bs := bytesEval(f, e)
-			ss := make([]string, len(bs))
-			for i, x := range bs {
-				ss[i] = strconv.Itoa(int(x))
-			}
-			fmt.Fprintf(&b, "Definition %s : list N := [%s]. (* %s:%s *)\n", t.Coq, strings.Join(ss, "; "), t.File, t.Name)
-		case "joinarg":
-			e := findValue(f, t.Name)
-			if e == nil {
-				die("value %s not found in %s", t.Name, t.File)
-			}
-			call, ok := e.(*ast.CallExpr)
-			if !ok || !strings.HasSuffix(exprStr(call.Fun), "JoinLenPrefix") || len(call.Args) != 1 {
-				die("%s is not a single-argument JoinLenPrefix call", t.Name)
-			}
-			bs := bytesEval(f, call.Args[0])
-			ss := make([]string, len(bs))
-			for i, x := range bs {
-				ss[i] = strconv.Itoa(int(x))
-			}
-			fmt.Fprintf(&b, "Definition %s : list N := [%s]. (* %s:%s = JoinLenPrefix(this) *)\n", t.Coq, strings.Join(ss, "; "), t.File, t.Name)
-		case "func":
-			fd := findFunc(f, t.Name, t.Recv)
-			if fd == nil {
-				die("func %s not found in %s", t.Name, t.File)
-			}
-			fmt.Fprintf(&b, "(* %s:%s *)\n%s", t.File, t.Name, translateFunc(f, fd, t.Coq, calls))
-			calls[t.Name] = true
-			if t.Coq != t.Name {
-				// calls from later Go code use the Go name; emit an alias under the Go name as well
-				fmt.Fprintf(&b, "Notation %s := %s (only parsing).\n", coqIdent(t.Name), t.Coq)
-			}
-		case "assign":
-			fd := findFunc(f, t.Name, t.Recv)
-			if fd == nil {
-				die("func %s not found in %s", t.Name, t.File)
-			}
-			fmt.Fprintf(&b, "(* %s:%s, right-hand side assigned to %s *)\n%s", t.File, t.Name, t.Var, translateAssign(f, fd, t, calls))
-		default:
-			die("target kind %s", t.Kind)
-		}
+		}()
+	}
+	if warnOut != "" {
+		_ = os.WriteFile(warnOut, []byte(strings.Join(warnings, "\n")), 0o644)
 	}
 	if err := os.WriteFile(out, []byte(b.String()), 0o644); err != nil {
 		fmt.Fprintln(os.Stderr, "gen:", err)
 		os.Exit(3)
+	}
+	if out2 != "" {
+		if err := os.WriteFile(out2, []byte(b2.String()), 0o644); err != nil {
+			fmt.Fprintln(os.Stderr, "gen:", err)
+			os.Exit(3)
+		}
 	}
 	if fpOut != "" {
 		fps := map[string]map[string]string{}
